@@ -101,7 +101,7 @@ impl Check for C16 {
     }
     fn plan(&self, tier: Tier) -> Plan {
         let quick = tier == Tier::Quick;
-        Plan { cases: if quick { 600 } else { 6000 }, max_tape: 8, min_slots: 20, max_slots: 150, shard_cases: 10, shard_timeout_s: if quick { 300 } else { 900 }, max_shrink_iters: 100, ..Plan::default() }
+        Plan { cases: if quick { 1600 } else { 16_000 }, max_tape: 8, min_slots: 20, max_slots: 150, shard_cases: 10, shard_timeout_s: if quick { 300 } else { 900 }, max_shrink_iters: 100, ..Plan::default() }
     }
     fn abort_is_violation(&self) -> bool {
         true
@@ -721,7 +721,7 @@ impl C15 {
             };
             // two kinds of parked scan: the full probe from position 0, or a tail scan that starts
             // at the stream's current end (where the events appended meanwhile will live)
-            let tail_target: Option<(u16, String, u64)> = if salt % 2 == 0 { snapshot.streams.iter().map(|((p, sid), ids)| (*p, sid.clone(), ids.len() as u64)).min() } else { None };
+            let tail_target: Option<(u16, String, u64)> = if (ops.len() + cfg.partitions as usize) % 2 == 0 { snapshot.streams.iter().map(|((p, sid), ids)| (*p, sid.clone(), ids.len() as u64)).min() } else { None };
             let tail_result: Arc<Mutex<Vec<(u64, Uuid)>>> = Arc::new(Mutex::new(Vec::new()));
             let reader = {
                 let (db, salt, tail_target, tail_result) = (db.clone(), salt, tail_target.clone(), tail_result.clone());
